@@ -2913,17 +2913,6 @@ VARIANTS = [
      "expect": "fire",
      "old": "    if len(node.args) == 1 and node.args[0] in self._paramspec_names:",
      "new": "    if len(node.args) == 1 and any(\n        p in node.args[0] for p in self._paramspec_names\n    ):"},
-    {"name": "twin-typeddict-split-bounded", "rule": "R5.9", "file": PRINTER,
-     "expect": "silent",
-     "old": "        name, typ = c.split(\": \")", "new": "        name, typ = c.split(\": \", 1)"},
-    {"name": "twin-concatenate-form-by-node-kind", "rule": "R5.9", "file": PRINTER,
-     "expect": "silent",
-     "old": "    elif node.args and \"Concatenate\" in node.args[0]:",
-     "new": "    elif node.args and isinstance(\n        self.old_node.args[0], pytd.Concatenate\n    ):"},
-    {"name": "callable-arm-unknown-text-predicate", "rule": "R5.9", "file": PRINTER,
-     "expect": "error",
-     "old": "    elif node.args and \"Concatenate\" in node.args[0]:",
-     "new": "    elif node.args and node.args[0].startswith(\"Concatenate[\"):"},
     # R5.10
     {"name": "revert-D23-unbounded-split", "rule": "R5.9", "file": PRINTER, "expect": "fire",
      "old": "        name, typ = c.split(\": \", 1)", "new": "        name, typ = c.split(\": \")"},
